@@ -1,0 +1,33 @@
+//go:build verif
+
+package base
+
+// Contracts checked by /verif's govc.  Comments only; build tag "verif".
+
+//@ unit base strict nopanic
+//@
+//@ // ===== C08: the comparators behind ORDER BY are the documented three-way comparisons ================
+//@ func compareInt -> (r)
+//@   ensures (a == b ==> r == 0) && (a > b ==> r == 1) && (a < b ==> r == -1)
+//@   tags C08
+//@ func compareBool -> (r)
+//@   ensures (a == b ==> r == 0) && (a && !b ==> r == 1) && (!a && b ==> r == -1)
+//@   tags C08
+//@ func compareFloat[float64] -> (r)
+//@   ensures (a == b ==> r == 0) && (a > b ==> r == 1) && (a < b ==> r == -1)
+//@   tags C08
+//@ func compareFloat[float32] -> (r)
+//@   ensures (a == b ==> r == 0) && (a > b ==> r == 1) && (a < b ==> r == -1)
+//@   tags C08
+//@ func compareNil -> (r)
+//@   ensures (a == nil && b == nil ==> r == 0) && (a != nil && b == nil ==> r == 1) && (a == nil && b != nil ==> r == -1)
+//@   tags C08
+//@ // a three-way comparison built this way is a total preorder: antisymmetric and transitive
+//@ spec cmpI(a int64, b int64) int = ite(a == b, 0, ite(a > b, 1, -1))
+//@ lemma cmpIntAntisymmetric(a int64, b int64)
+//@   ensures cmpI(a, b) == -cmpI(b, a)
+//@   tags C08
+//@ lemma cmpIntTransitive(a int64, b int64, c int64)
+//@   requires cmpI(a, b) <= 0 && cmpI(b, c) <= 0
+//@   ensures cmpI(a, c) <= 0 && (cmpI(a, c) == 0 ==> cmpI(a, b) == 0 && cmpI(b, c) == 0)
+//@   tags C08
